@@ -105,7 +105,11 @@ struct Case
 		else if(op == "moveassign") { CL & src = L(num(c[1])); L(num(c[2])) = std::move(src); }
 		else if(op == "swap") { using std::swap; swap(L(num(c[1])), L(num(c[2]))); }
 		else if(op == "destroy") { lists[num(c[1])]->destroy(); }
-		else if(op == "setcur") { L(num(c[1])).currentCounter = (unsigned int)(0xFFFFFFFFu - (unsigned int)num(c[2])); }
+		else if(op == "setcur") {
+			const unsigned int target = 0xFFFFFFFFu - (unsigned int)num(c[2]);
+			CL & l = L(num(c[1]));
+			if(l.currentCounter.load() < target) l.currentCounter = target;
+		}
 		else if(op == "ledger") {
 			std::printf("ledger");
 			for(long i = 0; i < num(c[1]); ++i) std::printf(" %d", g_live[(int)i]);
